@@ -59,6 +59,10 @@ STORES = {'shm': 'cache_mem 8 MB\nmemory_cache_shared on\nmaximum_object_size_in
           'rock': 'cache_mem 0\n'}                                                                      # rock only: every hit goes through the disker
 
 
+QUICK_BOUND2 = {('purge', 'off', 'shm'), ('purge', 'off', 'rock'), ('read-during-write', 'off', 'shm'), ('read-during-write', 'on', 'shm'),
+                ('refresh', 'off', 'shm'), ('refresh', 'off', 'rock')}
+
+
 def cases_for(tier):
     """Each case: scenario x size x origin framing x collapsed_forwarding x store, with its preemption bound."""
     quick = tier == 'quick'
@@ -72,10 +76,10 @@ def cases_for(tier):
                             continue                      # framing only matters while the response is being received
                         if quick and fr == 'chunked' and (cf == 'off' or sz == '3pages'):
                             continue
-                        if quick and st == 'rock' and sz == '3pages':
+                        if quick and sz == '3pages' and (st == 'rock' or sc not in ('read-during-write', 'purge')):
                             continue
                         if quick:
-                            bound = 2 if (sz == 'slot+1' and sc in ('purge', 'refresh', 'read-during-write') and fr == 'cl') else 1
+                            bound = 2 if (sz == 'slot+1' and fr == 'cl' and (sc, cf, st) in QUICK_BOUND2) else 1
                         else:
                             bound = 3 if (sz == 'slot+1' and fr == 'cl' and sc != 'two-writers') else (2 if sz != '3pages' else 1)
                         out.append({'scenario': sc, 'size': sz, 'framing': fr, 'cf': cf, 'store': st, 'bound': bound})
@@ -623,14 +627,21 @@ def run(ctx):
                 fresh(kind)
             return r
         try:
-            first = {}
             if mine:
-                def on0(ch, r):
-                    first[tuple(ch.choices())] = (r['transcript'], r['tags'])
-                ex.explore(lambda ch: _wrap(one, mine[0], ch), on0, max_exec=5, max_dev=1)
-                out['replays'] += len(first)
-                fresh((mine[0]['cf'], mine[0]['store']))
-                st['n'] = 0
+                # determinism obligation: the first executions of this shard's first case on two separate instances
+                runs = []
+                for rep in range(2):
+                    got = []
+                    ex.explore(lambda ch: _wrap(one, mine[0], ch), lambda ch, r: got.append((list(ch.choices()), r['transcript'], r['tags'])) and False,
+                               max_exec=4, max_dev=1)
+                    runs.append(got)
+                    out['replays'] += len(got)
+                    if rep == 0:
+                        fresh((mine[0]['cf'], mine[0]['store']))
+                        st['n'] = 0
+                if runs[0] != runs[1]:
+                    bad = next((a, b) for a, b in zip(runs[0], runs[1]) if a != b)
+                    raise HarnessError('nondeterminism: %s %r gave different transcripts on two instances:\n%r\n%r' % (case_name(mine[0]), bad[0][0], bad[0][1:], bad[1][1:]))
             for case in mine:
                 if time.time() > t_end:
                     out['deadline'] = True
@@ -645,8 +656,6 @@ def run(ctx):
                         kf = '%s:%s' % (case['scenario'], f)
                         out['facts'][kf] = out['facts'].get(kf, 0) + 1
                     key = tuple(ch.choices())
-                    if case is mine[0] and key in first and case['part'] == 0 and first[key] != (r['transcript'], r['tags']):
-                        raise HarnessError('nondeterminism: %s %r gave different transcripts on two instances:\n%r\n%r' % (cn, list(key), first[key], (r['transcript'], r['tags'])))
                     if r.get('crash'):
                         out['crashes'].append((cn, list(key), '; '.join(r['crash'])[:2000]))
                     if len(out['samples']) < 1 and out['execs'] % 23 == 3:
